@@ -481,3 +481,25 @@ Proof.
     + intros Hr' j Hlt. eapply exited_step; eauto. destruct (Hret Hr') as [X|[X|(k & Hp & Hex & Hle)]]; auto; [lia|].
       destruct (Nat.eq_dec j k) as [->|]; [exact Hex|]. eapply IH1; eauto. lia.
 Qed.
+
+(* ======================================================================================== *)
+(* what is proved of "stop() drains" (see Properties_C07.v for the part that is not)          *)
+Lemma ex_stop_returns_after_exit : forall c progs s, Reach c progs s -> stop_returned s = true ->
+  (forall j, j < nworkers c -> worker_exited s j) /\
+  (forall t th, nth_error (threads s) t = Some th -> trole th = RBal -> tpc th = BExit).
+Proof.
+  intros c progs s Hr Hret. split.
+  - apply (proj2 (ex_joined _ _ _ Hr) Hret).
+  - apply (ex_bal_exited _ _ _ Hr). left. exact Hret.
+Qed.
+
+(* non-vacuity: one worker, local capacity 1, task 0 spawns task 1; submit 0 then stop() *)
+Definition demo_cfg : config :=
+  {| nworkers := 1; gcap := 1; lcap := 1; stealing := 0; interval := -1; bodies := [[1]; []] |}.
+Definition demo_progs : list (list op) := [[OSubmit 0; OStop]].
+Definition demo_sched : list nat := concat (repeat [0; 1] 30).
+Lemma ex_demo : let s := run st (step demo_cfg) (init demo_cfg demo_progs) demo_sched in
+  stop_returned s = true /\ finished s = [0; 1] /\ map fst (started s) = [0; 1] /\ acc_local s = [1] /\ acc_before s = [0].
+Proof. vm_compute. repeat split; reflexivity. Qed.
+Lemma ex_demo_reach : Reach demo_cfg demo_progs (run st (step demo_cfg) (init demo_cfg demo_progs) demo_sched).
+Proof. exists demo_sched. reflexivity. Qed.
